@@ -4,6 +4,7 @@ C08 — soft limit never waits for space, never deadlocks, propagates callback e
 import Lockable.Proofs.ApiLemmas
 import Lockable.Props.C07
 import Lockable.Proofs.Fuel
+import Lockable.Proofs.Abort
 namespace Lockable
 
 /-- **Never waits for space**: if no entry is evictable (every entry is locked, awaited, or a placeholder)
@@ -33,12 +34,12 @@ theorem C08_all_locked_proceeds (kind : Kind) (as : List Act) (h k n : Nat) (hid
     · rename_i s' c cs e
       rw [e, hnil] at hx; simp at hx
 
-/-- **No internal lock is held while the callback runs / nothing waits**: every round of the loop is ONE total
-action that returns at once — with the candidates (whose guards then belong to the callback) or with
-the lookup done. The callback's own actions are ordinary actions executed between two such sections,
-so it may re-enter the container. Several limited lockers at once are ordinary interleavings of such
-actions: Theorem A (safety) applies, and each round makes progress (ends with the lookup, or with ≥ 1
-candidate handed to the callback). -/
+/-- **Every round of the loop is one section that returns at once**: its outcome is either the lookup done (`unit`) or a
+non-empty list of candidates handed to the callback — never an empty callback invocation, never a wait. This is all the
+statement says. That no internal lock is held while the callback runs is structural in the model (the callback's own actions are
+ordinary actions between two sections) and is checked on the code by the correspondence with re-entrant (`recount`) and
+eagerly working callbacks; that several limited lockers at once all complete is a fairness statement and is not proved
+(`C08_eviction_loop_ends` bounds the loop of one call with nobody else acting). -/
 theorem C08_round_total (kind : Kind) (as : List Act) (h k n : Nat) (hids : List Nat) :
     let s := run (State.init kind) as
     s.freshList (h :: hids) = true → s.order.length ≤ hids.length →
@@ -121,5 +122,14 @@ example :
     let a2 := (a1.exec (.drop 1)).1
     let r := a2.exec (.lock .wait 2 9 (.soft 1 [⟨[.keep], false, .ok⟩, ⟨[.keep], false, .ok⟩, ⟨[.keep], false, .ok⟩]) 200)
     r.2.rounds.length = 4 ∧ r.1.s.order = [9] ∧ r.1.s.hs 2 = some ⟨9, 1, .holding⟩ := by decide
+
+/-- **The error is returned** (not only "if the call aborted …"): whenever the first eviction round of a lock call hands guards
+to a callback that returns an error, the call returns that error (and by `C08_error` the requested key is not locked and
+nothing is left behind). Later rounds are first rounds of the loop's next iteration. -/
+theorem C08_err_propagates (a : Api) (v : Variant) (h k n : Nat) (script : List Round) (h0 : Nat) (cands : List Nat)
+    (hr : (step a.s (.limitLookup h k n (List.range' h0 supplyLen))).2 = .list cands)
+    (hfin : (script.head?.getD defaultRound).fin = .err) :
+    (a.lock v h k (.soft n script) h0).2.res matches .err :=
+  (lock_first_round a v h k n script h0 cands hr).1 hfin
 
 end Lockable
